@@ -431,7 +431,9 @@ RULE = {
            '1024*len).' + _NT,
     'C09': 'Same corruption and random-buffer populations as C08; oracle: '
            'every exception leaving frame.unmarshal is an '
-           'UnmarshalingException (RecursionError exempt, counted).' + _NT,
+           'UnmarshalingException (only a genuine interpreter recursion '
+           'overflow - input of >= 320 bytes, > 128 library frames on the '
+           'stack - is exempt, and counted).' + _NT,
     'C20': 'Seeded World A runs: at every receiver wake-up frame_parts is '
            'compared on the current buffer (and its first 7 bytes) with the '
            'big-endian unsigned header fields computed by int.from_bytes '
@@ -464,8 +466,11 @@ ASSUMPTIONS = {
         'backstop (worker death) as the only time-dependent verdict',
         'memory is sampled on a deterministic 1-in-8 subset of calls'],
     'C09': _COMMON_ASSUME + [
-        'RecursionError is exempt (needs ~300 nested containers, beyond the '
-        '64 levels the property covers); StepBudgetExceeded is C08\'s '
+        'a RecursionError is exempt only when it is the interpreter\'s own '
+        'limit (more than 128 library frames on the stack, input of at '
+        'least 64*5 bytes: deeper than the 64 levels the property covers); '
+        'one raised by the library itself on a covered input is a '
+        'violation; StepBudgetExceeded is C08\'s '
         'business and ends the call without a C09 verdict'],
     'C20': _COMMON_ASSUME,
 }
